@@ -1,6 +1,7 @@
 (* C07 — zone selection and RCODEs for unsupported queries. *)
+From QV Require Import Model.ZoneTree Model.Query Model.MsgWriter Model.QueryW.
 From QV Require Import Base.ListX Model.NameWire Model.Reader Model.RdataLite Model.Server Proofs.ServerP
-  Spec.NameWireS Spec.NameRepr Spec.ReaderS Model.CatTree Spec.CatTreeS Proofs.CatTreeCatP Model.ServerCat Proofs.ServerCatP.
+  Spec.NameWireS Spec.NameRepr Spec.ReaderS Model.CatTree Spec.CatTreeS Proofs.CatTreeCatP Model.ServerCat Proofs.ServerCatP Proofs.ServerNumP Proofs.ServerSimP.
 
 (* A request that passes the generic pre-processing is dispatched on its opcode:
    anything but QUERY gets NOTIMP, regardless of the catalog, and carries no data. *)
@@ -140,6 +141,36 @@ Theorem c07_clean_query_tree : forall answer verify cfg (c : tcatalog) req w0, w
   end.
 Proof. exact clean_query_tree. Qed.
 
+(* ---- what is handed to query answering ---------------------------------------------------------------
+   The server model carries an ABSTRACT Writer (cursor / limit / available / ARCOUNT).  For a request that
+   passes the pre-processing as a clean QUERY with its question and without TSIG, the real Writer of C12
+   (Model/MsgWriter.v), driven as Server::handle_message drives it ([QueryW.prepare_w]: Writer::new with the
+   transport's limit, id / QR / opcode / RD, add_question, set_edns, set_limit) with the values the server
+   model computed and a buffer of the configured size, succeeds and has EXACTLY the abstract Writer's cursor,
+   limit, available space and ARCOUNT — so the space [w_avail - w_cursor] the dispatch passes to the zone's
+   answer, and the limit / EDNS size the byte-level composition [respond_w] is run with, are the real ones. *)
+Theorem c07_answering_writer_agrees : forall verify cfg req w0 q buf, wf_cfg cfg -> wf_bytes req ->
+  prescan verify cfg req = Ok (PClean OPCODE_QUERY w0) -> Server.w_tsig w0 = None -> Server.w_question w0 = Some q ->
+  length buf = c_buflen cfg ->
+  exists w, prepare_w buf (match c_transport cfg with Tcp => true | Udp => false end)
+                      (Server.w_id w0) (Server.w_rd w0) (labels_of (Reader.q_name q)) (Reader.q_type q) (Reader.q_class q)
+                      (option_map fst (Server.w_edns w0)) (Server.w_limit w0) = Some w /\
+    MsgWriter.w_cursor w = Server.w_cursor w0 /\ MsgWriter.w_limit w = Server.w_limit w0 /\
+    MsgWriter.w_avail w = Server.w_avail w0 /\ MsgWriter.w_ar w = Server.w_arcount w0.
+Proof. exact prepare_w_agrees. Qed.
+
+(* ... and its numbers: the full pre-scan invariant holds (available + OPT reservation = limit, 512 <= limit
+   <= buffer), the cursor is 12 + the question's size (nothing else has been written), and the limit is the
+   transport's unless the EDNS negotiation over UDP changed it. *)
+Theorem c07_clean_query_numbers : forall verify cfg req o w q, wf_cfg cfg -> wf_bytes req ->
+  prescan verify cfg req = Ok (PClean o w) -> Server.w_tsig w = None -> Server.w_question w = Some q ->
+  (exists seen, srv_inv cfg seen w) /\
+  Server.w_cursor w = 12 + length (n_wire (Reader.q_name q)) + 4 /\ Server.w_buflen w = c_buflen cfg /\
+  length (n_wire (Reader.q_name q)) <= 255 /\
+  let L0 := Nat.min (match c_transport cfg with Tcp => tcp_limit | Udp => udp_limit end) (c_buflen cfg) in
+  (Server.w_edns w = None -> Server.w_limit w = L0) /\ (c_transport cfg = Tcp -> Server.w_limit w = L0).
+Proof. exact clean_query_numbers. Qed.
+
 (* Non-vacuity: a. (Loaded 0), b.a. (NotYetLoaded) and a second insert of B.A. (FailedToLoad, replacing
    the equal key) in class IN; x.B.a. selects the replaced entry in the tree and in its flat view. *)
 Example c07_tree_example :
@@ -163,3 +194,5 @@ Print Assumptions c07_query_table_tree.
 Print Assumptions c07_clean_query_tree.
 Print Assumptions c07_catalog_refinement_link.
 Print Assumptions c07_single_zone_link.
+Print Assumptions c07_answering_writer_agrees.
+Print Assumptions c07_clean_query_numbers.
